@@ -307,6 +307,8 @@ def show(v, d=0):
         return 'UNINIT'
     if d > 40:
         return '...'
+    if not isinstance(v, tuple) or not v or not isinstance(v[0], str):
+        return repr(v)[:200]
     k = v[0]
     if k == 'int':
         return str(v[1])
